@@ -12,6 +12,7 @@
  * lean/Ivy/Drv/Loop.lean, which replays it against the Lean machine).
  */
 #include <stdio.h>
+#include <sys/time.h>
 #include <stdlib.h>
 #include <string.h>
 #include <stdarg.h>
@@ -922,6 +923,15 @@ static void ledger(const char *tag)
 extern void __sanitizer_set_death_callback(void (*cb)(void));
 static void flush_on_death(void) { fflush(stdout); }
 
+static void verif_watchdog(int cpu_s, int wall_s)
+{
+	/* a library call that spins is cut by the CPU-time limit (independent of how loaded the machine is); one that sleeps for
+	 * ever by the generous wall-clock limit */
+	struct itimerval it = { { 0, 0 }, { cpu_s, 0 } };
+	setitimer(ITIMER_PROF, &it, NULL);
+	alarm(wall_s);
+}
+
 int main(int argc, char **argv)
 {
 	static char line[MAXLINE];
@@ -934,7 +944,7 @@ int main(int argc, char **argv)
 	setvbuf(stdout, NULL, _IOLBF, 0);
 	__sanitizer_set_death_callback(flush_on_death);
 	signal(SIGPIPE, SIG_IGN);
-	alarm(4);	/* a scenario takes milliseconds; a library that loops forever is killed (SIGALRM) instead of hanging the check */
+	verif_watchdog(6, 40);
 	iv_set_fatal_msg_handler(fatal_handler);
 
 	while (fgets(line, sizeof(line), f) != NULL) {
